@@ -182,6 +182,33 @@ pub struct KnownFinding {
 	pub key: String,
 	pub what: String,
 	pub status: String,
+	/// optional structured match for keys of the form `P|class|kind|label|age`:
+	/// every listed field must contain the corresponding part
+	pub classes: Vec<String>,
+	pub kinds: Vec<String>,
+	pub labels: Vec<String>,
+	pub ages: Vec<String>,
+	pub id: String,
+}
+
+impl KnownFinding {
+	pub fn matches(&self, property: &str, key: &str) -> bool {
+		if self.status != "known" || self.property != property {
+			return false;
+		}
+		if !self.key.is_empty() && self.key == key {
+			return true;
+		}
+		if self.classes.is_empty() {
+			return false;
+		}
+		let parts: Vec<&str> = key.split('|').collect();
+		if parts.len() != 5 {
+			return false;
+		}
+		let has = |v: &Vec<String>, x: &str| v.iter().any(|y| y == x);
+		has(&self.classes, parts[1]) && has(&self.kinds, parts[2]) && has(&self.labels, parts[3]) && has(&self.ages, parts[4])
+	}
 }
 
 pub fn load_known_findings() -> Vec<KnownFinding> {
@@ -191,11 +218,21 @@ pub fn load_known_findings() -> Vec<KnownFinding> {
 		if let Ok(v) = serde_json::from_str::<Value>(&s) {
 			if let Some(a) = v["findings"].as_array() {
 				for e in a {
+					let list = |k: &str| -> Vec<String> {
+						e[k].as_array()
+							.map(|a| a.iter().filter_map(|x| x.as_str().map(|s| s.to_string())).collect())
+							.unwrap_or_default()
+					};
 					out.push(KnownFinding {
 						property: e["property"].as_str().unwrap_or("").to_string(),
 						key: e["key"].as_str().unwrap_or("").to_string(),
 						what: e["what"].as_str().unwrap_or("").to_string(),
 						status: e["status"].as_str().unwrap_or("known").to_string(),
+						classes: list("classes"),
+						kinds: list("kinds"),
+						labels: list("labels"),
+						ages: list("ages"),
+						id: e["id"].as_str().unwrap_or("").to_string(),
 					});
 				}
 			}
@@ -373,17 +410,17 @@ pub fn drive(spec: &CheckSpec, tier: &str) -> i32 {
 	let _ = std::fs::create_dir_all(&replay_dir);
 	let mut new_violations = 0;
 	let mut known_hits: BTreeSet<String> = BTreeSet::new();
+	let mut known_counts: BTreeMap<String, u64> = BTreeMap::new();
 	let mut lines: Vec<String> = vec![];
 	let mut seen_keys: BTreeSet<String> = BTreeSet::new();
 	for (n, (case, seed, v)) in violations.iter().enumerate() {
-		if let Some(k) = known
-			.iter()
-			.find(|k| k.status == "known" && k.property == spec.property && k.key == v.key)
-		{
-			if known_hits.insert(k.key.clone()) {
+		if let Some(k) = known.iter().find(|k| k.matches(&spec.property, &v.key)) {
+			let kid = if k.id.is_empty() { k.key.clone() } else { k.id.clone() };
+			*known_counts.entry(kid.clone()).or_insert(0u64) += 1;
+			if known_hits.insert(kid.clone()) {
 				lines.push(format!(
 					"KNOWN-FINDING: property={} {} [{}]",
-					spec.property, k.what, k.key
+					spec.property, k.what, kid
 				));
 			}
 			continue;
@@ -450,7 +487,7 @@ pub fn drive(spec: &CheckSpec, tier: &str) -> i32 {
 	coverage.insert("worker_cpu_s".into(), json!(worker_wall));
 	coverage.insert("real_components".into(), json!(spec.real_components));
 	coverage.insert("stub_components".into(), json!(spec.stub_components));
-	coverage.insert("known_findings_hit".into(), json!(known_hits.iter().collect::<Vec<_>>()));
+	coverage.insert("known_findings_hit".into(), json!(known_counts));
 	coverage.insert("harness_errors".into(), json!(harness_errors));
 	for (k, v) in extra {
 		coverage.insert(k, v);
